@@ -20,7 +20,15 @@ for pid in props:
         except Exception:
             pass
 
-out = [open(os.path.join(V, "tools", "design_head.md")).read()]
+import glob
+_spec = glob.glob(os.path.join(V, "spec", "*.tla"))
+_harn = glob.glob(os.path.join(V, "harness", "*.py"))
+_nl = lambda fs: sum(open(f).read().count("\n") for f in fs)
+_head = open(os.path.join(V, "tools", "design_head.md")).read()
+for k_, v_ in (("{NMOD}", len(_spec)), ("{NSPEC}", _nl(_spec)), ("{NHARN}", _nl(_harn)), ("{NFIND}", len(kf)),
+               ("{NFIXED}", sum(1 for f in kf if f["status"] == "fixed")), ("{NKNOWN}", sum(1 for f in kf if f["status"] == "known"))):
+    _head = _head.replace(k_, str(v_))
+out = [_head]
 for pid in sorted(props):
     r = rows.get(pid)
     out.append("\n### %s — %s\n" % (pid, props[pid]["title"]))
